@@ -17,7 +17,7 @@ RULE = (
     "plug-in and one unplug per session plus the generated recomputes, in non-decreasing "
     "(time, unplug<plug-in<recompute) order with the oracle's own rank table, each handled in the "
     "period of its timestamp (observed as len(event_history) at every scheduler call); the "
-    "occupant of every station in EVERY period (snapshot in ChargingNetwork.post_charging_update) "
+    "occupant of every station in EVERY period (snapshot where the period's pilots are applied, ChargingNetwork.update_pilots) "
     "equals the session with arrival <= t < departure; non-zero recorded rates only inside "
     "connection intervals, and in the always-max family with oversized batteries non-zero in "
     "every connected period. A step bound of last+1 periods turns non-termination into a "
@@ -86,9 +86,10 @@ def prop(spec, rec):
         for sid in m.station_ids:
             require(c["occ"][sid] == m.occupant(sid, c["t"]), "occupant_at_call", lambda: "period %d station %s holds %r, model %r" % (c["t"], sid, c["occ"][sid], m.occupant(sid, c["t"])))
 
-    # (4) connection intervals in every period
-    require(len(net.trace) == m.end, "one_update_per_period", lambda: "%d charging updates, %d periods" % (len(net.trace), m.end))
-    for t, occ in enumerate(net.trace):
+    # (4) connection intervals in every period (observed where the period's pilots are applied)
+    require(net.updates == m.end and sorted(net.trace) == list(range(m.end)), "one_charging_update_per_period", lambda: "charging updates for periods %r, simulation has periods 0..%d" % (sorted(net.trace), m.end - 1))
+    for t in range(m.end):
+        occ = net.trace[t]
         for sid in m.station_ids:
             require(occ[sid] == m.occupant(sid, t), "connected_exactly_arrival_to_departure", lambda: "period %d station %s holds %r, model %r" % (t, sid, occ[sid], m.occupant(sid, t)))
 
